@@ -78,6 +78,7 @@ type Rec struct {
 	Pos    token.Pos
 	Fn     string
 	Snap   map[string]*Term // child records: integer fields of the child strongly updated before it was encoded
+	Val    *Term            // integer writes: the abstract value written
 }
 
 type LoopCtx struct {
